@@ -209,7 +209,7 @@ func genRunHistory(t *rapid.T, x *parserExec) {
 			n = 1 + rapid.IntRange(0, n-1).Draw(t, "chunk")
 		}
 		if n > room {
-			n = room
+			n = maxInt(room, 0)
 		}
 		if n > 0 {
 			x.step(POp{Op: "write", Data: stream[pos : pos+n]})
